@@ -46,6 +46,11 @@ impl<'a> MessageParser<'a> {
     pub fn parse_field<T: SwiftField>(&mut self, tag: &str) -> Result<T, ParseError> {
         let field_content = self.extract_field(tag, false)?;
 
+        #[cfg(feature = "verif-hooks")]
+        crate::verif_hooks::emit(crate::verif_hooks::HookEvent::FieldParsed {
+            tag: tag.to_string(),
+            ok: T::parse(&field_content).is_ok(),
+        });
         // Try to parse the field
         T::parse(&field_content).map_err(|e| {
             ParseError::InvalidFieldFormat(Box::new(InvalidFieldFormatError {
@@ -73,6 +78,11 @@ impl<'a> MessageParser<'a> {
         // If immediate next field matches, extract and parse it
         match self.extract_field(tag, true) {
             Ok(content) => {
+                #[cfg(feature = "verif-hooks")]
+                crate::verif_hooks::emit(crate::verif_hooks::HookEvent::FieldParsed {
+                    tag: tag.to_string(),
+                    ok: T::parse(&content).is_ok(),
+                });
                 let parsed = T::parse(&content).map_err(|e| {
                     ParseError::InvalidFieldFormat(Box::new(InvalidFieldFormatError {
                         field_tag: tag.to_string(),
@@ -95,6 +105,11 @@ impl<'a> MessageParser<'a> {
 
         // Keep parsing until no more instances found
         while let Ok(content) = self.extract_field(tag, true) {
+            #[cfg(feature = "verif-hooks")]
+            crate::verif_hooks::emit(crate::verif_hooks::HookEvent::FieldParsed {
+                tag: tag.to_string(),
+                ok: T::parse(&content).is_ok(),
+            });
             let parsed = T::parse(&content).map_err(|e| {
                 ParseError::InvalidFieldFormat(Box::new(InvalidFieldFormatError {
                     field_tag: tag.to_string(),
@@ -118,6 +133,11 @@ impl<'a> MessageParser<'a> {
         let full_tag = format!("{}{}", base_tag, variant);
         let field_content = self.extract_field(&full_tag, false)?;
 
+        #[cfg(feature = "verif-hooks")]
+        crate::verif_hooks::emit(crate::verif_hooks::HookEvent::FieldParsed {
+            tag: full_tag.clone(),
+            ok: T::parse_with_variant(&field_content, Some(&variant), Some(base_tag)).is_ok(),
+        });
         // Use parse_with_variant for enum fields
         T::parse_with_variant(&field_content, Some(&variant), Some(base_tag)).map_err(|e| {
             ParseError::InvalidFieldFormat(Box::new(InvalidFieldFormatError {
@@ -140,6 +160,11 @@ impl<'a> MessageParser<'a> {
             Some(variant) => {
                 let full_tag = format!("{}{}", base_tag, variant);
                 if let Ok(content) = self.extract_field(&full_tag, true) {
+                    #[cfg(feature = "verif-hooks")]
+                    crate::verif_hooks::emit(crate::verif_hooks::HookEvent::FieldParsed {
+                        tag: full_tag.clone(),
+                        ok: T::parse_with_variant(&content, Some(&variant), Some(base_tag)).is_ok(),
+                    });
                     let parsed = T::parse_with_variant(&content, Some(&variant), Some(base_tag))
                         .map_err(|e| {
                             ParseError::InvalidFieldFormat(Box::new(InvalidFieldFormatError {
@@ -171,6 +196,25 @@ impl<'a> MessageParser<'a> {
 
         // Extract field content using the field_extractor module
         let extract_result = extract_field_content(&self.input[self.position..], tag);
+
+        #[cfg(feature = "verif-hooks")]
+        {
+            let marker = format!(":{}:", tag);
+            let rest = &self.input[self.position..];
+            let skipped_non_ws = rest
+                .find(&marker)
+                .map(|i| rest[..i].chars().filter(|c| !c.is_whitespace()).count())
+                .unwrap_or(0);
+            crate::verif_hooks::emit(crate::verif_hooks::HookEvent::Extract {
+                message_type: self.message_type.clone(),
+                tag: tag.to_string(),
+                optional,
+                position_before: self.position,
+                skipped_non_ws,
+                consumed: extract_result.as_ref().map(|r| r.1).unwrap_or(0),
+                found: extract_result.is_some(),
+            });
+        }
 
         match extract_result {
             Some((content, consumed)) => {
@@ -305,5 +349,17 @@ impl<'a> MessageParser<'a> {
         }
 
         None
+    }
+}
+
+#[cfg(feature = "verif-hooks")]
+impl Drop for MessageParser<'_> {
+    fn drop(&mut self) {
+        crate::verif_hooks::emit(crate::verif_hooks::HookEvent::ParserEnd {
+            message_type: self.message_type.clone(),
+            position: self.position,
+            input_len: self.input.len(),
+            rest_is_blank: self.is_complete(),
+        });
     }
 }
